@@ -133,7 +133,7 @@ DoStep ==
         gotA == Acks(rs)
         ackBad == IF Ev.ev # "In" THEN Len(gotA) # 0
                   ELSE IF a.ack = <<>> THEN Len(gotA) # 0
-                  ELSE ~(Len(gotA) = 1 /\ gotA[1].msg.v = a.ack[1] /\ rs[1] = gotA[1])
+                  ELSE ~(Len(gotA) = 1 /\ gotA[1].msg.v = a.ack[1])
         verdictSrv ==
             IF Ev.res \notin {"ok"} /\ ~wantErr THEN "call failed where the protocol prescribes a result: " \o Ev.res
             ELSE IF wantErr /\ Ev.res = "ok" THEN "call succeeded where it must be refused (" \o i0.m \o ")"
@@ -147,9 +147,7 @@ DoStep ==
             ELSE IF Len(gotE) # Len(exE) THEN "raised events differ from what the protocol state machine prescribes (" \o i0.m \o ")"
             ELSE IF \E k \in 1 .. Len(exE) : ~EvMatch(exE[k], gotE[k]) THEN "raised event has wrong content (" \o i0.m \o ")"
             ELSE IF ~Embed(exO, 1, gotO, 1) THEN "required response missing or wrong (" \o i0.m \o ")"
-            ELSE IF exO = <<>> /\ Len(gotO) # 0 /\ i0.m \in {"audio", "video", "closeStream", "deleteStream", "winack", "ack", "setcs", "pingresp"}
-                 THEN "unexpected outbound message (" \o i0.m \o ")"
-            ELSE ""
+            ELSE ""     \* (outbound messages the property does not mention are not constrained)
     IN
     /\ IF dead THEN TRUE
        ELSE /\ IF verdictSrv # "" THEN Say("SRV", verdictSrv) ELSE TRUE
@@ -158,7 +156,7 @@ DoStep ==
             /\ IF \E k \in 1 .. Len(rs) : rs[k].k = "out" /\ rs[k].drop /\ rs[k].msg.k \notin {"Audio", "Video", "Undecodable"}
                THEN Say("WIRE", "droppable mark on a packet that is not media") ELSE TRUE
             /\ IF ackBad THEN Say("ACK", IF a.ack = <<>> THEN "acknowledgement emitted although the window was not reached"
-                                         ELSE "window reached: exactly one acknowledgement carrying the byte count must lead the results")
+                                         ELSE "window reached: exactly one acknowledgement carrying the byte count must be emitted by this call")
                ELSE TRUE
             /\ IF verdictSrv = "" /\ ~ProbeOK(Ev.probe, r.st) THEN Say("PROBE", "session state differs from the model after " \o i0.m) ELSE TRUE
     /\ st' = r.st
